@@ -1,3 +1,4 @@
+import SmtpV.Proofs.CopyExact
 import SmtpV.Proofs.Framing
 /-!
 # C05 — BDAT chunks are framed by octet count
@@ -73,5 +74,18 @@ def exS : S :=
   { w := { buf := "\r\n.\r".b, segs := ["\nMAIL FROM:<ba".b, "it@x>\r\nNOOP\r\n".b] }, cfg := { maxLine := 40 } }
 
 example : pending (discardChunkN exS (some 25)).w = "NOOP\r\n".b := by decide +kernel
+
+/-- **C05_payload_delivered_exactly.**  Copying a chunk of `n` declared octets from a live connection that holds them, into a
+    running delivery that reads to the end: the delivery is handed exactly the first `n` octets of the stream, appended to what
+    it had — whatever the segmentation of the stream, whatever sits in bufio's buffer, whatever the copy buffer size — and the
+    stream continues exactly behind them.  (Chunk after chunk, the backend's reader therefore yields the concatenation of the
+    payloads.) -/
+theorem C05_payload_delivered_exactly (s : Server.S) (k n cap fuel : Nat) (hl : s.w.limit = 0) (hw : Server.Live s.w)
+    (hcap : 0 < cap) (hn : n ≤ (Server.pending s.w).length) (hf : n ≤ fuel) (hh : Server.Hungry s k) :
+    Server.octs (Server.copyChunk fuel s k n cap).1 k = Server.octs s k ++ (Server.pending s.w).take n ∧
+    Server.pending (Server.copyChunk fuel s k n cap).1.w = (Server.pending s.w).drop n ∧
+    (Server.copyChunk fuel s k n cap).2.1 = 0 := by
+  obtain ⟨h1, h2, h3, _⟩ := Server.copyChunk_exact fuel s k n cap hl hw hcap hn hf hh
+  exact ⟨h3, h2, h1⟩
 
 end SmtpV.Props.C05
